@@ -1,6 +1,7 @@
 package main
 
 import (
+	"fmt"
 	"bytes"
 
 	"github.com/ipfs/go-cid"
@@ -252,6 +253,41 @@ func init() {
 					c12EmitMismatch(c, kind, defaultWOpts, roots, puts, cut, shortH, roots, "limits:refusal-shorter-limit")
 					c12EmitMismatch(c, kind, defV1, roots, puts, cut, shortV1, roots, "limits:refusal-shorter-limit-v1")
 					c12EmitMismatch(c, kind, defaultWOpts, roots, puts, cut, tiny, roots, "limits:refusal-tiny-limit")
+				}
+			}
+		}
+		// ---- (a4) root lists whose header length straddles a varint width boundary ------------------
+		// carv1.HeaderSize (util.LdSize) tells Resume where the first section starts: header payload
+		// of exactly 127 / 128 bytes (1 -> 2 prefix bytes) and 16383 / 16384 / 16385 bytes (2 -> 3;
+		// about 400 roots), both CAR versions, both front-ends, interrupted by Discard and by Finalize
+		{
+			r := c.R.Fork()
+			puts := genBlocks(r, 3, genOpts{identity: false, maxData: 40})
+			targets := []int{127, 128, 16384}
+			if c.Thorough {
+				targets = []int{126, 127, 128, 129, 16382, 16383, 16384, 16385}
+			}
+			for _, target := range targets {
+				roots := crRootsForHeaderLen(r, target)
+				for _, v1 := range []bool{false, true} {
+					o := defaultWOpts
+					o.v1 = v1
+					for _, kind := range []uint64{0, 1} {
+						plain, ok := c12PlainFinal(c.Work, kind, o, roots, puts)
+						if !ok {
+							continue
+						}
+						for _, cuts := range [][]string{{"discard"}, {"finalize"}, {"finalize", "discard"}} {
+							if target > 1000 && len(cuts) < 2 && !c.Thorough {
+								continue // a 16 KiB header costs the extracted model about a second per session
+							}
+							var segs []crSeg
+							for i, cut := range cuts {
+								segs = append(segs, crSeg{cut: cut, blks: puts[i : i+1]})
+							}
+							c12EmitSegs(c, kind, o, roots, segs, puts[len(cuts):], plain, fmt.Sprintf("header-length=%d", target))
+						}
+					}
 				}
 			}
 		}
